@@ -3,6 +3,7 @@ package c11
 import (
 	"errors"
 	"io"
+	"os"
 
 	"verif/harness/kit"
 )
@@ -113,6 +114,9 @@ type stream struct {
 
 func (s *stream) Read(p []byte) (int, error) {
 	s.reads++
+	if s.closed > 0 {
+		return 0, os.ErrClosed // like a file or a pipe: closing ends the source, whatever was left in it (r6)
+	}
 	if s.off >= len(s.data) {
 		return 0, io.EOF
 	}
